@@ -169,6 +169,15 @@ def run(ctx):
         elif not same_layout(toks, want):
             ctx.violation("long-render-layout", {"length": n_}, expected="space before residues 0,10,.. and break before 0,50,.. only", actual=len(toks))
     c15.validate_histories(ctx, trs, 2)
+    from .. import orderswap
+    okp = {a_: "red" for a_ in common.AA}
+    items = []
+    for pal_ in (dict(okp, K="pink"), dict(okp, K="red\n"), dict(okp, K="Red"), {k_: v_ for k_, v_ in okp.items() if k_ != "W"}, dict(okp, K=""), dict(okp, K=5), dict(okp, K="blue"), dict(okp, X="red")):
+        items.append({"obj": 0, "seq": "ACDEFGHIKLMNPQRSTVWYKK", "q": "set_HTMLColorResiduePalette", "a": [pal_]})
+        items.append({"obj": 0, "seq": "ACDEFGHIKLMNPQRSTVWYKK", "q": "get_HTMLColorString", "a": []})
+    for it_ in items:
+        it_["block"] = 0          # kept in this order in both processes: what is rendered depends on the palettes set before
+    orderswap.env_differential(ctx, items, "palette-acceptance", "c20env")
     ctx.sample({"trace": [{"kind": e["kind"], "accepted": e.get("accepted")} for e in trs[0]["ev"]]})
     ctx.sample({"tokens": trs[0]["ev"][-1].get("toks", [])[:6]})
     defaults.reset()
